@@ -304,3 +304,36 @@ def walk_stream(quick_n=300, thorough_n=8000):
                   driver_input=driver_input, compare=compare,
                   nontrivial=lambda c, o: any(" cb(" in (" " + l) for l in o),
                   opkind=lambda l: l.split()[0] + (":" + l.split("kind=")[1].split()[0] if "kind=" in l else ""))
+
+
+def gen_storm_case(rng):
+    """the same protocol-resend trigger again and again for one query: BADCOOKIE with ever-changing server cookies,
+    truncation, FORMERR, SERVFAIL, duplicates of each - transmissions must stay within servers x tries + 5"""
+    ns = rng.choice([1, 1, 2, 3])
+    ops = ["chan servers=%s flags=%d tries=%d timeout=1000" % (
+        ",".join("10.0.0.%d" % (i + 1) for i in range(ns)), rng.choice([0, 16, 4, 128]), rng.choice([1, 2, 3]))]
+    ops.append("req tok=1 kind=send name=%s type=1 edns=%d" % (rng.choice(NAMES), rng.choice([1, 1, 0])))
+    kinds = rng.choice([["badcookie"], ["tc"], ["formerr"], ["servfail"], ["badcookie", "tc"], ["badcookie", "formerr", "tc", "servfail", "refused"]])
+    for _ in range(rng.randint(6, 25)):
+        k = rng.choice(kinds)
+        line = "reply tx=-%d kind=%s" % (rng.choice([1, 1, 1, 2]), k)
+        if k == "badcookie" or rng.random() < 0.5:
+            line += " cookie=new:%s" % "".join(rng.choice("0123456789abcdef") for _ in range(2 * rng.choice([8, 8, 16, 32])))
+        ops.append(line)
+        if rng.random() < 0.3:
+            ops.append(line)     # duplicate
+        ops.append(rng.choice(["proc r=-1", "procall", "procall"]))
+        if rng.random() < 0.2:
+            ops.append("procall")
+    ops += ["adv 30000", "tick", "adv 30000", "tick", "destroy"]
+    return ops
+
+
+def storm_stream(monitor, quick_n=250, thorough_n=6000):
+    def gen(rng, tier):
+        return [gen_storm_case(rng) for _ in range(quick_n if tier == "quick" else thorough_n)]
+    return Stream("storm", "h_sim", "driver_sim", gen,
+                  monitor=lambda c, o: mon_common(c, o) + monitor(c, o),
+                  driver_input=driver_input, compare=compare,
+                  nontrivial=lambda c, o: any("tx(" in l for l in o),
+                  opkind=lambda l: l.split()[0] + (":" + l.split("kind=")[1].split()[0] if "kind=" in l else ""))
